@@ -37,6 +37,10 @@
 (* of this specification: Documented/Guarded below delimit what is.         *)
 (***************************************************************************)
 EXTENDS Naturals, Sequences, FiniteSets, TLC
+\* The lattice itself is a value and not an object of this state machine: copy-constructing it and destroying the copy (at any point of a
+\* history) is a stuttering step -- no status and no data of any object may change, and the original stays usable.  The replay harness
+\* makes such scratch copies while the lattice of the objects under test is being built and once it is complete (C17: no double free, no
+\* use of storage freed by the copy's destructor).
 
 Objs == {"IC", "HS", "SYM", "S", "H", "HP", "DM", "CX", "C", "QA", "OPS", "GF", "X", "SU", "EA", "V"}
 OpNames == {"prepare", "compute", "get", "copy"}
